@@ -111,6 +111,7 @@ def one_case(ctx: Ctx, stream: str, i: int, depth: int) -> None:
     for k, (t, _) in enumerate(schedule):
         slot_of[t].append(k)
     errors: list = []
+    seen_cfgs: list = []        # ConfigState objects the history observed
 
     def worker(t):
         inverses = {}
@@ -136,6 +137,7 @@ def one_case(ctx: Ctx, stream: str, i: int, depth: int) -> None:
                     try:
                         with Config(**kwargs(ev[1])):
                             observed[slot] = ['cfg'] + tokens_of(Config.instance(), tables)
+                            seen_cfgs.append(Config.instance())
                             done.release()
                             how, eslot = run_block()
                             if how == 'exitExc':
@@ -153,6 +155,8 @@ def one_case(ctx: Ctx, stream: str, i: int, depth: int) -> None:
                 elif ev[0] == 'apply':
                     inv = inverses.get(ev[1])
                     observed[slot] = 'unknown' if inv is None else ['cfg'] + tokens_of(inv.config, tables)
+                    if inv is not None:
+                        seen_cfgs.append(inv.config)
                     done.release()
                 else:
                     observed[slot] = ['cfg'] + tokens_of(Config.instance(), tables)
@@ -195,6 +199,19 @@ def one_case(ctx: Ctx, stream: str, i: int, depth: int) -> None:
                 ctx.fail(stream, i, f'config-observation:{schedule[k][1][0]}',
                          f'event {k} {schedule[k]}: implementation observed {g}, the state machine says {w}', cfg)
                 break
+    # the comparison of configurations (what jit keys a trace of a lazy inverse on) distinguishes exactly the
+    # configurations that differ in a setting: hypothesis `hinj` of C19.jit_uses_creation_config
+    bad_eq = None
+    for ka in range(min(len(seen_cfgs), 12)):
+        for kb in range(ka + 1, min(len(seen_cfgs), 12)):
+            ca, cb = seen_cfgs[ka], seen_cfgs[kb]
+            same_tokens = tokens_of(ca, tables) == tokens_of(cb, tables)
+            st_eq, eq = safe(lambda: bool(ca == cb))
+            if bad_eq is None and (st_eq != 'ok' or eq != same_tokens):
+                bad_eq = (eq if st_eq == 'ok' else st_eq, tokens_of(ca, tables), tokens_of(cb, tables))
+    if bad_eq is not None:
+        ctx.fail(stream, i, 'configuration-equality-not-by-settings',
+                 f'ConfigState.__eq__ gives {bad_eq[0]} for settings {bad_eq[1]} and {bad_eq[2]}', cfg)
     if after != [0, 0, 0, 0]:
         ctx.fail(stream, i, 'config-leaks-into-main-thread', f'main thread sees {after} after the history', cfg)
     maxdepth = 0
@@ -247,6 +264,92 @@ def solve_case(ctx: Ctx, stream: str, i: int) -> None:
     ctx.count('solve')
 
 
+def jit_case(ctx: Ctx, stream: str, i: int) -> None:
+    """Two lazy inverses of the same operator whose creation-time configurations differ in exactly ONE setting are
+    applied eagerly and through one shared jitted function that takes the operator as an argument (in a seeded
+    order): each must behave according to the configuration captured at ITS creation — under jit too, where the
+    captured configuration is part of what the trace is keyed on."""
+    from furax._base.config import Config
+    from furax._base.core import InverseOperator
+    from furax._base.dense import DenseBlockDiagonalOperator
+    rng = ctx.rng(stream, i)
+    which = ['solver', 'options', 'throw', 'callback'][i % 4]
+    n = rng.choice([4, 5])
+    # symmetric positive definite with n distinct, well separated eigenvalues: k < n CG steps do not converge
+    q, _ = np.linalg.qr(np.array([[rng.uniform(-1, 1) for _ in range(n)] for _ in range(n)]))
+    eig = np.array([1.0 + 2.5 * k for k in range(n)])
+    m = (q * eig) @ q.T
+    S = jax.ShapeDtypeStruct((n,), jnp.float32)
+    a = DenseBlockDiagonalOperator(jnp.asarray(m, dtype=jnp.float32), S)
+    pre = DenseBlockDiagonalOperator(jnp.asarray(np.linalg.inv(m), dtype=jnp.float32), S)
+    y = jnp.asarray([rng.choice([-2.0, -1.0, 1.0, 2.0, 3.0]) for _ in range(n)], dtype=jnp.float32)
+    exact = np.linalg.solve(m, np.asarray(y, dtype=np.float64))
+    log_a, log_b = [], []
+    cb_a, cb_b = (lambda sol: log_a.append(1)), (lambda sol: log_b.append(1))
+    weak = lx.CG(rtol=1e-6, atol=1e-6, max_steps=2)
+    strong = lx.CG(rtol=1e-6, atol=1e-6, max_steps=60)
+    common = {'solver': weak, 'solver_callback': cb_a}
+    if which == 'solver':
+        ka, kb = {'solver': weak}, {'solver': strong}
+    elif which == 'options':
+        ka, kb = {'solver_options': {}}, {'solver_options': {'preconditioner': pre}}
+    elif which == 'throw':
+        ka, kb = {'solver_throw': False}, {'solver_throw': True}
+    else:
+        ka, kb = {'solver_callback': cb_a}, {'solver_callback': cb_b}
+    nest = rng.random() < 0.5
+    with Config(**common):
+        if nest:
+            with Config(**ka):
+                inv_a = InverseOperator(a)
+                with Config(**kb):
+                    inv_b = InverseOperator(a)
+        else:
+            with Config(**ka):
+                inv_a = InverseOperator(a)
+            with Config(**kb):
+                inv_b = InverseOperator(a)
+
+    def observe(fn):
+        """(converged?, raised?, which callback ran) of one application"""
+        na, nb = len(log_a), len(log_b)
+        st, r = safe(fn)
+        try:
+            if st == 'ok':
+                jax.block_until_ready(r)
+            jax.effects_barrier()
+        except Exception:  # noqa: BLE001
+            st = 'raised-late'
+        conv = bool(st == 'ok' and np.allclose(np.asarray(r, dtype=np.float64), exact, rtol=2e-3, atol=2e-3))
+        return [conv, st != 'ok', 'a' if len(log_a) > na else 'b' if len(log_b) > nb else '-']
+
+    shared = jax.jit(lambda op, v: op(v))
+    eager = {'a': observe(lambda: inv_a(y)), 'b': observe(lambda: inv_b(y))}
+    order = ['a', 'b'] if rng.random() < 0.5 else ['b', 'a']
+    jitted = {}
+    for k in order + order[:1]:        # the first one once more, after the other has been traced
+        jitted[k] = observe(lambda: shared(inv_a if k == 'a' else inv_b, y))
+    cfg = {'differs_in': which, 'n': n, 'nested': nest, 'order': order, 'eager': eager, 'jitted': jitted}
+    expected = {'solver': ([False, False, 'a'], [True, False, 'a']),
+                'options': ([False, False, 'a'], [True, False, 'a']),
+                'throw': ([False, False, 'a'], [False, True, None]),
+                'callback': ([False, False, 'a'], [False, False, 'b'])}[which]
+    for k, want in zip('ab', expected):
+        for mode, obs in (('eager', eager[k]), ('jit', jitted[k])):
+            bad = [j for j in range(3) if want[j] is not None and obs[j] != want[j]]
+            if bad:
+                ctx.fail(stream, i, f'inverse-{mode}-ignores-creation-{which}',
+                         f'the inverse created under {"ka" if k == "a" else "kb"} ({which}) applied {mode}: observed '
+                         f'[converged, raised, callback] = {obs}, its creation-time configuration implies {want}', cfg)
+                break
+    if jax.tree.structure(inv_a) == jax.tree.structure(inv_b) or inv_a.config == inv_b.config:
+        ctx.fail(stream, i, f'configurations-differing-in-{which}-compare-equal',
+                 'two lazy inverses whose captured configurations differ are indistinguishable to JAX '
+                 '(equal static part): a trace made for one is reused for the other', cfg)
+    ctx.case(f'jit:{which}:{n}:{nest}:{order}:{np.asarray(y).tolist()}', True, sample={'jit': cfg})
+    ctx.count('jit:' + which)
+
+
 def run(ctx: Ctx) -> None:
     q = ctx.tier == 'quick'
     for i in range(200 if q else 4000):
@@ -255,3 +358,6 @@ def run(ctx: Ctx) -> None:
     for i in range(6 if q else 60):
         if ctx.want('solve', i):
             solve_case(ctx, 'solve', i)
+    for i in range(8 if q else 120):
+        if ctx.want('jit', i):
+            jit_case(ctx, 'jit', i)
